@@ -53,8 +53,12 @@ def unit_merge_redox(pid="C14", twin=False):
             if twin and pid == "C10":
                 ok = False
             r.add("remove_all.match_is_erased_and_pass_repeated(deleted=true)", DISCHARGED if ok else FAILED, "symex", 0, "erases=%d deleted=%r" % (len(erases), d))
+            if finds:
+                U.discharge_valid(r, "remove_all.erased_only_if_the_key_STARTS_with_the_prefix(find==0)", list(s.pc), tm.eq(finds[0].result, tm.num(0, "I")))
         else:
             miss += 1
+            if finds:
+                U.discharge_valid(r, "remove_all.kept_only_if_the_key_does_not_start_with_the_prefix#%d" % miss, list(s.pc), tm.not_(tm.eq(finds[0].result, tm.num(0, "I"))))
             r.add("remove_all.non_matching_entry_kept", DISCHARGED if not erases and d is tm.sym("iter_deleted", "B") or (not erases and d is not tm.TRUE) else FAILED, "symex", 0, "erases=%d deleted=%r" % (len(erases), d), kind="frame")
     r.add("reach.pass", DISCHARGED if hit == 1 and miss >= 1 else FAILED if hit == 0 else UNDECIDED, "symex", 0, "%d matching, %d non-matching paths" % (hit, miss), kind="vacuity")
     loops = [x for x in A.walk(fn) if x.get("kind") == "WhileStmt"]
